@@ -346,7 +346,9 @@ Definition table_sort : list (string * (list arg -> out)) :=
            | Some ax, Some k => out_res onarr (argsort_arr Z.ltb Z.eqb 0%Z (mka s e) ax k) | _, _ => OBad end
        | _ => OBad end)
   ; ("unique", fun args => match args with
-       | [AA s e; AN] => orarr (unique1 Z.ltb Z.eqb (mka s e)) | _ => OBad end)
+       | [AA s e; ax] => match optz ax with
+           | Some ax => orarr (unique_arr Z.ltb Z.eqb 0%Z (mka s e) ax) | None => OBad end
+       | _ => OBad end)
   ].
 
 (* ---- C11: joining ---- *)
